@@ -286,6 +286,10 @@ def run_replay(script_path, timeout=120):
     env = dict(os.environ)
     env['PYTHONPATH'] = src
     env.pop('PYTHONHASHSEED', None)
+    # temporary files of the replay scripts live in the run's scratch directory (removed at exit)
+    td = os.path.join(scratch_dir(), 'replay-tmp')
+    os.makedirs(td, exist_ok=True)
+    env['TMPDIR'] = td
     r = subprocess.run(['/venv/bin/python', script_path], env=env, stdout=subprocess.PIPE,
                        stderr=subprocess.STDOUT, timeout=timeout)
     return r.returncode, r.stdout.decode('utf-8', 'replace')
